@@ -626,6 +626,15 @@ M('C18', 'date-bin-days-ceil', QE,
   "        modulo = diff % seconds\n        delta = diff - modulo\n", "        delta = -(-diff // seconds) * seconds\n        modulo = 0\n", ('R-BINFLOOR', 'date_bin'), expect_error=True)
 T('C18', 'twin-date-bin-floordiv', QE,
   "        modulo = diff % seconds\n        delta = diff - modulo\n", "        delta = diff // seconds * seconds\n        modulo = diff - delta\n")
+M2('C18', 'century-consistently-zero-based', [
+    (QE, "        return datetime.date(x.year - (x.year - 1) % 100, 1, 1)", "        return datetime.date(x.year - x.year % 100, 1, 1)"),
+    (QE, "        return (x.year - 1) // 100 + 1", "        return x.year // 100 + 1")], ('R-TRUNCLAW', 'century'))
+M('C18', 'quarter-trunc-off-by-one-month', QE,
+  "        return datetime.date(x.year, x.month - (x.month - 1) % 3, 1)", "        return datetime.date(x.year, x.month - x.month % 3, 1)", ('R-TRUNCLAW', 'quarter'))
+T('C18', 'twin-decade-floordiv', QE,
+  "        return datetime.date(x.year - x.year % 10, 1, 1)", "        return datetime.date(x.year // 10 * 10, 1, 1)")
+T('C18', 'twin-month-trunc-replace', QE,
+  "        return datetime.date(x.year, x.month, 1)", "        return x.replace(day=1)")
 M('C18', 'int-cast-typeerror-not-caught', QE,
   "    except (ValueError, TypeError, OverflowError):\n        return None\n\n\n@function([Decimal], Decimal, name='decimal')",
   "    except (ValueError, OverflowError):\n        return None\n\n\n@function([Decimal], Decimal, name='decimal')", ('R-CASTTOTAL', 'function:int(object)'))
